@@ -9,6 +9,7 @@ import (
 	"strconv"
 	"strings"
 	"sync"
+	"unicode/utf8"
 
 	"github.com/reeflective/readline"
 
@@ -117,6 +118,14 @@ func genToken(r *rand.Rand, vi bool) (tok string, tag string) {
 	case k < 18:
 		return pick(r, c01CSI), "csi"
 	case k < 19:
+		// the argument key: printable ASCII (any ASCII in Emacs), or a multi-byte character
+		if r.Intn(5) == 0 {
+			arg := pick(r, []string{"é", "世", "😀", "ü"})
+			if vi {
+				return pick(r, argCmdsVi) + arg, "argcmd"
+			}
+			return pick(r, argCmdsEmacs) + arg, "argcmd"
+		}
 		if vi {
 			return pick(r, argCmdsVi) + string(rune(32+r.Intn(95))), "argcmd"
 		}
@@ -141,9 +150,15 @@ func genScript(r *rand.Rand, vi bool, n int) []sess.Step {
 		}
 		prevDigits = isDig
 		if tag == "argcmd" && r.Intn(2) == 0 && len(t) > 1 {
-			// argument key in a separate read
-			plan = append(plan, sess.Step{W: t[:len(t)-1], Tag: "argcmd"}, sess.Step{W: t[len(t)-1:], Tag: "arg"})
-			continue
+			// argument key (the last character) in a separate read
+			cut := len(t) - 1
+			for cut > 0 && !utf8.RuneStart(t[cut]) {
+				cut--
+			}
+			if cut > 0 {
+				plan = append(plan, sess.Step{W: t[:cut], Tag: "argcmd"}, sess.Step{W: t[cut:], Tag: "arg"})
+				continue
+			}
 		}
 		plan = append(plan, sess.Step{W: t, Tag: tag})
 	}
